@@ -625,7 +625,7 @@ def run_batch_scenario(idx, sc, texts):
         # a directory argument followed by explicit paths inside it: a file the walk does not pick up (other extension) and,
         # now and then, a missing one
         extra_args = []
-        if sc.get("extra") and not mode_args:
+        if sc.get("extra") and sc.get("mode") != "stdout":
             t = rnd.choice(texts)
             inc = os.path.join(d, "inc")
             os.makedirs(inc, exist_ok=True)
@@ -638,11 +638,25 @@ def run_batch_scenario(idx, sc, texts):
                 files["inc/gone.pas"] = None
                 fails.add("inc/gone.pas")
                 extra_args.append(os.path.join(d, "inc/gone.pas"))
-        rc, out, err = run_bin(cfg_args + mode_args + (paths if sc.get("explicit", True) else [d]) + extra_args, root, env=env)
-        what = f"n={n} threads={sc['threads']} failing={sorted(fails)}" + (" mode=stdout" if mode_args else "") + (f" cfg={sc['cfg']}" if cfg_args else "")
+        if sc.get("loglevel"):
+            mode_args = mode_args + ["--log-level", sc["loglevel"]]
+        pre_args = []
+        if sc.get("badglob"):
+            # a pattern the glob library rejects, in front of the real paths: an error for this argument, the others are handled
+            pre_args = [sc["badglob"]]
+            fails.add(sc["badglob"])
+        if sc.get("fd_limit"):
+            # more files than the process may hold open at once
+            e = dict(os.environ); e.pop("PASFMT_VERIF_TRACE", None); e.update(env)
+            r = subprocess.run(["bash", "-c", f"ulimit -n {int(sc['fd_limit'])}; exec \"$0\" \"$@\"", PASFMT] + cfg_args + mode_args + [d], cwd=root, stdout=subprocess.PIPE, stderr=subprocess.PIPE, env=e, timeout=300)
+            rc, out, err = r.returncode, r.stdout, r.stderr
+        else:
+            rc, out, err = run_bin(cfg_args + mode_args + pre_args + (paths if sc.get("explicit", True) else [d]) + extra_args, root, env=env)
+        what = f"n={n} threads={sc['threads']} failing={sorted(fails)}" + (" mode=stdout" if sc.get("mode") == "stdout" else "") + (f" cfg={sc['cfg']}" if cfg_args else "") \
+            + (f" --log-level {sc['loglevel']}" if sc.get("loglevel") else "") + (f" open-file limit {sc['fd_limit']}" if sc.get("fd_limit") else "")
         if (rc != 0) != bool(fails):
             problems.append({"clause": "exit_status", "detail": f"exit status {rc} but the failing files are {sorted(fails)} ({what}); stderr {err[-300:].decode(errors='replace')}"})
-        if mode_args:
+        if sc.get("mode") == "stdout":
             # stdout mode: the result of a file is its block `path:\n<text>\n`; the output must be the blocks of the good files in
             # some order, each in one piece, and no file may change
             blocks = {}
